@@ -8,9 +8,49 @@ from ..mon import outcome
 from ..ref import refmatch
 
 
+SCHEMA_FORMS = ["str", "str", "str-declared-latin1", "bytes-utf16",
+                "bytes-latin1", "str", "bytes-utf8", "pseudo-named"]
+_SF = [0]
+SCHEMA_FORM_COUNT = {}
+_SHARED_LOADER = [None]
+
+
+class PseudoNamed(io.StringIO):
+    """A text stream with a placeholder name, as sys.stdin has."""
+    name = "<stdin>"
+
+
 def load_schema(xml):
+    """The schema document reaches the loader as a str stream (with or
+    without an encoding declaration, which means nothing for text that is
+    decoded already), as bytes in UTF-8, UTF-16 or declared Latin-1, or
+    from a stream with a placeholder name read by one long-lived
+    SchemaLoader: the same schema every time."""
     import ZConfig
-    return ZConfig.loadSchemaFile(io.StringIO(xml))
+    import ZConfig.loader
+    _SF[0] += 1
+    form = SCHEMA_FORMS[_SF[0] % len(SCHEMA_FORMS)]
+    if form == "bytes-latin1":
+        try:
+            data = ('<?xml version="1.0" encoding="iso-8859-1"?>\n' +
+                    xml).encode("latin-1")
+        except UnicodeEncodeError:
+            form = "bytes-utf16"
+    SCHEMA_FORM_COUNT[form] = SCHEMA_FORM_COUNT.get(form, 0) + 1
+    if form == "str":
+        return ZConfig.loadSchemaFile(io.StringIO(xml))
+    if form == "str-declared-latin1":
+        return ZConfig.loadSchemaFile(io.StringIO(
+            '<?xml version="1.0" encoding="iso-8859-1"?>\n' + xml))
+    if form == "bytes-utf16":
+        return ZConfig.loadSchemaFile(io.BytesIO(xml.encode("utf-16")))
+    if form == "bytes-utf8":
+        return ZConfig.loadSchemaFile(io.BytesIO(xml.encode("utf-8")))
+    if form == "bytes-latin1":
+        return ZConfig.loadSchemaFile(io.BytesIO(data))
+    if _SHARED_LOADER[0] is None:
+        _SHARED_LOADER[0] = ZConfig.loader.SchemaLoader()
+    return _SHARED_LOADER[0].loadFile(PseudoNamed(xml))
 
 
 def models_for(ctx, n_random, systematic=True, handlers=False,
